@@ -264,6 +264,11 @@ func (p *Provider) getLightBlock(ctx context.Context, height int64) (*lightBlock
 		pf.RecordFailure()
 		return nil, nil, err
 	}
+	// Ensure the signed header itself is for the queried height, not just its envelope.
+	if clb.Height != height {
+		pf.RecordBadPeer()
+		return nil, nil, consensus.ErrVersionNotFound
+	}
 
 	rsp := &lightBlock{
 		lb:  &lb,
